@@ -89,6 +89,17 @@ def chk_routes(c):
             for q in range(m):
                 assert np.allclose(np.squeeze(J2[q // c_, q % c_]), np.squeeze(J[idxs[q]]), rtol=1e-10, atol=1e-10), \
                     'scattered Jacobian on %s-layout coordinate arrays is permuted' % layout
+    # integer-valued coefficient arrays of an integer dtype describe the same function as their float copy, also in the derivatives
+    if c['kind'] == 'bspline' and hasattr(f, 'coeffs'):
+        from pyiga import bspline as _b
+        Ci = np.round(3 * np.asarray(f.coeffs)).astype(int)
+        fi, ff = _b.BSplineFunc(kvs, Ci), _b.BSplineFunc(kvs, Ci.astype(float))
+        assert np.allclose(fi.grid_eval(grid), ff.grid_eval(grid), atol=1e-12), 'values with integer coefficients'
+        assert np.allclose(fi.grid_jacobian(grid), ff.grid_jacobian(grid), atol=1e-10), 'Jacobian with integer coefficients'
+        if len(c['tail']) <= 1:
+            Hi, Hf = fi.grid_hessian(grid), ff.grid_hessian(grid)
+            assert np.allclose(Hi, Hf, atol=1e-9 * max(1.0, np.max(np.abs(Hf)))), \
+                'Hessian with integer coefficients differs from the Hessian of the float copy by %g (truncated to the coefficient dtype?)' % np.max(np.abs(Hi - Hf))
     # Jacobian = derivative of the evaluated map (central differences inside the domain)
     h = 1e-6
     for I in idxs[:6]:
@@ -201,6 +212,26 @@ def _same(a, b):
     return a == b or (a is None and b is None)
 
 
+def chk_scalar_nurbs(c):
+    """a scalar-valued NURBS function (output shape ()) stays scalar-valued under copy / translate / scale / boundary: same values, same shapes"""
+    from pyiga import bspline, geometry
+    rng = np.random.RandomState(c['seed'])
+    kvs = tuple(bspline.make_knots(2, 0.0, 1.0, 2 + d) for d in range(c['sdim']))
+    N = tuple(kv.numdofs for kv in kvs)
+    f = geometry.NurbsFunc(kvs, rng.randint(-3, 4, size=N).astype(float), rng.uniform(0.5, 2.0, size=N))
+    assert f.output_shape() == ()
+    grid = [np.linspace(0.0, 1.0, 3 + d) for d in range(c['sdim'])]
+    V = f.grid_eval(grid)
+    assert V.shape == tuple(len(g) for g in grid)
+    for name, g, want in (('copy', f.copy(), V), ('translate', f.translate(1.5), V + 1.5), ('scale', f.scale(-2.0), -2.0 * V)):
+        assert g.output_shape() == (), '%s() of a scalar NURBS function has output shape %r' % (name, g.output_shape())
+        W = g.grid_eval(grid)
+        assert W.shape == V.shape and np.allclose(W, want, atol=1e-12), '%s() of a scalar NURBS function: shape %r, expected %r' % (name, W.shape, V.shape)
+    if c['sdim'] >= 2:
+        b = f.boundary((0, 0))
+        assert b.output_shape() == () and np.allclose(b.grid_eval(grid[1:]), V[0], atol=1e-12), 'boundary() of a scalar NURBS function has output shape %r' % (b.output_shape(),)
+
+
 def chk_ops(c):
     from pyiga import bspline, geometry
     f, kvs = _func(dict(c, tail=[2]))
@@ -251,6 +282,15 @@ def chk_ops(c):
     unchanged('as_nurbs')
     cp = f.copy()
     assert np.allclose(cp.grid_eval(grid), V, atol=1e-13) and cp.coeffs is not f.coeffs
+    # support restriction followed by copy: the copy is the same map on the same (restricted) domain
+    fr_ = f.copy()
+    supp = tuple((lo + 0.25 * (hi - lo), hi - 0.125 * (hi - lo)) for (lo, hi) in f.support)
+    fr_.support = supp
+    assert tuple(map(tuple, fr_.support)) == supp, 'support restriction not reported'
+    unchanged('support restriction of a copy')
+    cp2 = fr_.copy()
+    assert np.allclose(np.asarray(cp2.support, dtype=float), np.asarray(supp, dtype=float)), \
+        'copy() of a function with restricted support %r has support %r' % (supp, cp2.support)
     cp.coeffs[...] = 0
     unchanged('copy (and mutating the copy)')
     if sdim >= 2:
@@ -367,7 +407,7 @@ def chk_boundary1d(c):
         assert b.sdim == 0 and np.allclose(b.grid_eval([]), val)
 
 
-CHECKS = {'boundary1d': chk_boundary1d, 'routes': chk_routes, 'nurbs': chk_nurbs, 'boundary': chk_boundary, 'ops': chk_ops, 'arcs': chk_arcs, 'ctors': chk_ctors}
+CHECKS = {'scalar_nurbs': chk_scalar_nurbs, 'boundary1d': chk_boundary1d, 'routes': chk_routes, 'nurbs': chk_nurbs, 'boundary': chk_boundary, 'ops': chk_ops, 'arcs': chk_arcs, 'ctors': chk_ctors}
 
 
 def generate(tier, rng):
@@ -388,6 +428,8 @@ def generate(tier, rng):
                 seed += 1
                 if sdim <= 2:
                     yield 'ops', {'seed': seed, 'sdim': sdim, 'kind': kind, 'tail': [2]}
+                    if kind == 'nurbs':
+                        yield 'scalar_nurbs', {'seed': seed, 'sdim': sdim}
     for k, alpha in enumerate([0.1, 0.5, 1.0, np.pi / 2, 2.0, 3.0, np.pi, 3.5, 4.0, 5.0, 6.0, 2 * np.pi]):
         for r in (1.0, 0.25, 7.5):
             yield 'arcs', {'alpha': float(alpha), 'r': r, 'shapes': k == 0}
